@@ -117,7 +117,7 @@ def run_prop(chk, prop, seed):
 def main():
     outdir, n = sys.argv[1], int(sys.argv[2])
     props = sys.argv[3:]
-    wt = outdir[:-4] if outdir.endswith('.out') else outdir
+    wt = os.path.join(os.path.dirname(outdir.rstrip('/')), os.path.basename(outdir.rstrip('/'))[:3])
     seed = int(os.environ.get('VERIF_SEED', '20260925'))
     chk = load_check()
     rec = {'mutant': '%s/mutant%d.diff' % (outdir, n), 'properties': props}
